@@ -326,3 +326,34 @@ def rule_c15_declared(r):
         and pf.unparse(got[0].value.args[0]) == "kernel_module" and pf.const_value(got[0].value.args[1]) == "single"
     r.check(ok, mi.relpath, "make_model_info", "info.single = getattr(kernel_module, 'single', <default>)", got[0].lineno if got else fn.lineno,
             "the model's own declaration decides")
+
+
+# --------------------------------------------------------------------------------------------- C05: orientation limits in model tables
+def rule_c05_orient_limits(r):
+    """Jitter values are offsets from the view angle; the interfaces truncate the jitter mesh with the parameter's own
+    limits (direct_model._pop_par_weights, sasview_model._get_weights pass parameter.limits).  An orientation parameter
+    whose limits are not symmetric about zero therefore cuts the mesh on one side, and the average is no longer centred
+    on zero."""
+    from .. import tables
+    n = 0
+    for mid, md in sorted(tables.models().items()):
+        for p in md.pars:
+            if p["type"] != "orientation":
+                continue
+            n += 1
+            lim = p["limits"]
+            ok = isinstance(lim, (list, tuple)) and len(lim) == 2 and lim[0] == -lim[1] and lim[1] >= 180
+            r.check(ok, md.relpath, "parameters", "%s limits %s" % (p["name"], list(lim) if isinstance(lim, (list, tuple)) else lim),
+                    md.lineno.get("parameters", 0),
+                    "symmetric about zero and at least +/-180: the jitter mesh is not cut on one side" if ok else
+                    "limits of an orientation parameter also truncate its jitter distribution, which is centred on zero: "
+                    "one side of the mesh is dropped for this model")
+    if n < 40:
+        raise AnalysisError("orientation parameters not found in the model tables (%d)" % n)
+    # the interfaces do pass the parameter's limits to the distribution
+    dm = pf.lib("direct_model").func("_pop_par_weights")
+    res = pyval.fold_function(dm)
+    gw = [c for c in res.calls if c[0].endswith("get_weights")]
+    ok = bool(gw) and pyval.same(pyval.call_arg(gw[0], pos=5, kw="limits"), sym("parameter.limits"))
+    r.check(ok, "sasmodels/direct_model.py", "_pop_par_weights", "get_weights(..., limits = parameter.limits, ...)", gw[0][1].lineno if gw else dm.lineno,
+            "the hard limits of the parameter bound its distribution")
